@@ -1,4 +1,5 @@
 """C06 - algorithms return what the standard specifies (clauses: scan discipline, functor discipline, tie rules)."""
+import os
 from .. import astx
 from .. import db as D
 from ..rules import iters as IT
@@ -64,6 +65,9 @@ def tie_rule(chk, db):
     return n
 
 
+FIXTURE = os.path.join(D.VERIF, "fixtures", "iter_pos.hpp")
+
+
 def run(chk, tier):
     db = D.load("checks")
     funcs = [f for f in db.funcs if (f["file"].startswith("_algorithm/") or f["file"].startswith("_numeric/")) and f.get("kind") == "function"]
@@ -126,6 +130,27 @@ def run(chk, tier):
                           % (astx.loc(f, node if isinstance(node, dict) else None), cur), {"where": astx.loc(f)})
     if n_out < 15:
         chk.analysis_broken("IT3: only %d algorithms return their output cursor (floor 15)" % n_out)
+    n_rev = 0
+    for f in funcs:
+        for cur, beg, loop, handled in IT.check_reverse(chk, f):
+            n_rev += 1
+            construct = "%s :: downward scan of `%s` (line %s)" % (astx.sig(f), cur, loop.get("line"))
+            chk.instance("IT4")
+            chk.obligation("IT4", construct, handled)
+            if not handled:
+                chk.violation("IT4", construct, "first-element-skipped", "%s: the loop uses `*%s` and then steps down, and stops when `%s == %s`: "
+                              "the element at `%s` is never visited and is not handled after the loop" % (
+                                  astx.loc(f, loop), cur, cur, beg, beg), {"where": astx.loc(f, loop)})
+    chk.extra["downward_scans"] = n_rev
+    # positive controls (expected count on the library is zero for IT3/IT4 violations)
+    fx = D.load_source('#include "%s"\n' % FIXTURE, root=os.path.dirname(FIXTURE) + "/", tag="fixture-iter")
+    fxf = dict((g["n"], g) for g in fx.funcs)
+    r3 = IT.check_output(chk, fxf["copy_two"]) if "copy_two" in fxf else None
+    r4 = IT.check_reverse(chk, fxf["shift_down_scan"]) if "shift_down_scan" in fxf else []
+    if not (r3 and r3[0] == "bad"):
+        chk.analysis_broken("IT3: the positive control fixture::copy_two was not reported")
+    if not any(not h for _c, _b, _l, h in r4):
+        chk.analysis_broken("IT4: the positive control fixture::shift_down_scan was not reported")
     nt = tie_rule(chk, db)
     nrel = rel.check(chk, db, ["_iterator/reverse_iterator.hpp"])
     chk.extra["not_modelled"] = not_modelled
